@@ -790,7 +790,7 @@ Ltac msolve :=
   let r := fresh "r" in
   intros r;
   try match goal with H : subK ?A ?B |- _ => generalize (H r) end;
-  rewrite ?mem_app, ?mem_removeAll;
+  repeat first [rewrite mem_app | rewrite mem_removeAll];
   repeat match goal with |- context [mem r ?A] => destruct (mem r A) end;
   simpl; intuition congruence.
 
@@ -916,3 +916,258 @@ Proof.
     apply StInv_release; [apply StInv_setScopes; eapply StInv_drop; eauto|].
     intros l r Hl Hr Hv Hin. eapply Hdj; eauto. apply collectRefDecls_sub. destruct (HR r Hin) as [[]|A]; exact A.
 Qed.
+
+Lemma mem_head : forall r K, mem r (r :: K) = true.
+Proof. intros. unfold mem. simpl. rewrite Nat.eqb_refl. reflexivity. Qed.
+Lemma subK_tail : forall r K, subK K (r :: K).
+Proof. intros r K q Hq. unfold mem in *. simpl. rewrite Hq. apply orb_true_r. Qed.
+
+Lemma cond_sound : forall L D K Ks G x c,
+  StInv L D K G x -> subK Ks K -> errs (checkCond c x) = [] ->
+  checkCond c x = x /\ safeCond Ks G c = true.
+Proof.
+  intros L D K Ks G x c I HK He. destruct c as [pl|]; simpl in *; auto.
+  destruct (conflict_read Ks G pl) eqn:C.
+  - exfalso. eapply conflict_read_detect; eauto.
+  - destruct (checkRead_cases pl x) as [[e Hx]|Hx]; rewrite Hx in *; auto.
+    exfalso. eapply addErr_noerr; eauto.
+Qed.
+
+Lemma sound_stmt : forall s, PS s.
+Proof.
+  induction s using stmt_ind2; intros L D K Ks G x I HK Hnd Hdj Hvs He.
+  - (* SVar *)
+    simpl in I. exists []. split; [reflexivity|]. split; [intros l []|].
+    destruct I as [B Bd Ls Gs Dl BT T]. constructor; simpl; auto.
+    + intros l Hl Hm. unfold mem in *. simpl. rewrite (Ls l Hl Hm). apply orb_true_r.
+    + intros v' Hv'. unfold mem in *. simpl in *. apply orb_true_iff in Hv'. destruct Hv' as [Hq|Hq].
+      * rewrite Hq. reflexivity.
+      * rewrite (Dl _ Hq). apply orb_true_r.
+  - (* SLet *)
+    simpl in I, Hvs.
+    change (checkNode (SLet r m pl) x) with (checkBorrowInit r m pl x) in *. unfold checkBorrowInit in *.
+    assert (HL : mem (fst pl) L = true -> mem (fst pl) (locals x) = true).
+    { intros Hm. rewrite Hm in Hvs. simpl in Hvs. apply (iDl _ _ _ _ _ I). exact Hvs. }
+    destruct (let_step L D K K Ks G x r (fst pl) (snd pl) m I (fun q Hq => Hq) HK HL He) as [C I'].
+    exists [mkL (Some r) (fst pl) (snd pl) m]. simpl. rewrite C. simpl. split; [reflexivity|]. split.
+    + intros l [Hl|[]]. subst. exists r. simpl. auto.
+    + exact I'.
+  - (* SCopy *)
+    simpl in I.
+    change (checkNode (SCopy r2 r) x) with (bindRefFromIdent r2 r x) in *. unfold bindRefFromIdent in *.
+    change (declsDeepS (SCopy r2 r)) with [r2] in *.
+    simpl safeS. destruct (lookupLoan r G) as [l|] eqn:El.
+    + assert (Hb : lookup r (bindings x) = Some (entryOf l)).
+      { apply (iBd _ _ _ _ _ I r l El). apply mem_head. }
+      rewrite Hb in *. simpl e_base in *. simpl e_path in *. simpl e_mut in *.
+      destruct (lookupLoan_some _ _ _ El) as [Hin Href].
+      assert (HL : mem (l_base l) L = true -> mem (l_base l) (locals x) = true).
+      { intros Hm. apply (iLs _ _ _ _ _ I); auto. }
+      destruct (let_step L D (r :: K) K Ks G x r2 (l_base l) (l_path l) (l_mut l) I (subK_tail r K) HK HL He) as [C I'].
+      exists [mkL (Some r2) (l_base l) (l_path l) (l_mut l)]. rewrite C. simpl. split; [reflexivity|]. split.
+      * intros l' [Hl|[]]. subst. exists r2. simpl. auto.
+      * exact I'.
+    + exists []. split; [reflexivity|]. split; [intros l []|]. simpl.
+      destruct (lookup r (bindings x)) as [e|] eqn:Eb.
+      * assert (I0 : StInv [] D (r :: K) G x) by (eapply StInv_changeL; [exact I|]; intros l _ Hm; discriminate).
+        assert (HL : mem (e_base e) [] = true -> mem (e_base e) (locals x) = true) by (intros Hm; discriminate).
+        destruct (let_step [] D (r :: K) K Ks G x r2 (e_base e) (e_path e) (e_mut e) I0 (subK_tail r K) HK HL He) as [C I'].
+        destruct (checkBorrowInit_like_frame r2 (e_base e) (e_path e) (e_mut e) x) as (_ & Hloc & _).
+        eapply StInv_changeL.
+        -- eapply (StInv_drop [] D K [mkL (Some r2) (e_base e) (e_path e) (e_mut e)] G _ [r2]); [exact I' | | exact Hdj].
+           intros l' [Hl|[]]. subst. exists r2. simpl. auto.
+        -- intros l Hl Hm. rewrite Hloc. apply (iLs _ _ _ _ _ I); auto.
+      * eapply StInv_anti; [exact I | apply subK_tail | auto].
+  - (* SUse *)
+    simpl in I. exists []. split; [reflexivity|]. split; [intros l []|].
+    eapply StInv_anti; [exact I | apply subK_tail | auto].
+  - (* SWt *)
+    simpl in I. exists []. split; [reflexivity|]. split; [intros l []|].
+    eapply StInv_anti; [exact I | apply subK_tail | auto].
+  - (* SRead *)
+    simpl in I. change (checkNode (SRead pl) x) with (checkRead pl x) in *.
+    exists []. simpl. destruct (conflict_read Ks G pl) eqn:C.
+    + exfalso. eapply conflict_read_detect; eauto.
+    + destruct (checkRead_cases pl x) as [[e Hx]|Hx]; rewrite Hx in *.
+      * exfalso. eapply addErr_noerr; eauto.
+      * split; [reflexivity|]. split; [intros l []|]. exact I.
+  - (* SWrite *)
+    simpl in I. change (checkNode (SWrite pl) x) with (checkWrite pl x) in *.
+    exists []. simpl. destruct (conflict_write Ks G pl) eqn:C.
+    + exfalso. eapply conflict_write_detect; eauto.
+    + destruct (checkWrite_cases pl x) as [[e Hx]|Hx]; rewrite Hx in *.
+      * exfalso. eapply addErr_noerr; eauto.
+      * split; [reflexivity|]. split; [intros l []|]. exact I.
+  - (* SCall *)
+    change (mentions (SCall args)) with (flat_map arg_mentions args) in I.
+    change (checkNode (SCall args) x) with (releaseTemps (length (temp x)) (fold_left checkArg args x)) in *.
+    assert (T := iT _ _ _ _ _ I). rewrite T in He |- *. simpl length in *.
+    remember (fold_left checkArg args x) as y eqn:Hy.
+    destruct (releaseTemps_proj 0 y) as (B1&B2&B3&B4&B5&B6).
+    destruct (fold_args_frame args x) as (A1&A2&A3&A4&A5&A6). rewrite <- Hy in A1, A2, A3, A4, A5, A6.
+    assert (Ey : errs y = []) by congruence.
+    assert (T0 : temps0 x) by (intros e' He'; rewrite T in He'; destruct He').
+    exists []. simpl. split; [|split; [intros l []|]].
+    + f_equal. eapply (args_sound args (flat_map arg_mentions args ++ K)).
+      * exact (iB _ _ _ _ _ I).
+      * unfold subK. msolve.
+      * rewrite <- Hy. exact Ey.
+    + eapply StInv_transfer with (x := x).
+      * eapply StInv_anti; [exact I | | auto]. unfold subK. msolve.
+      * intros e He' Ht. apply B6; auto.
+      * rewrite B1. exact A4.
+      * rewrite B4. exact A2.
+      * rewrite B3. reflexivity.
+  - (* SBlock *)
+    rewrite checkNode_block in *. rewrite vsS_block in Hvs. rewrite safeS_block.
+    change (mentions (SBlock b)) with (mentionsL b) in I.
+    change (declsDeepS (SBlock b)) with (declsDeep b) in *. change (varsDeepS (SBlock b)) with (varsDeep b).
+    destruct (sound_block_of b H L D (removeAll (declsDeep b) K) (removeAll (declsDeep b) Ks) G x) as [HS I']; auto.
+    + intros r Hr. rewrite mem_removeAll. apply mem_In in Hr. rewrite Hr. simpl. apply andb_false_r.
+    + eapply StInv_anti; [exact I | | auto]. unfold subK. msolve.
+    + unfold subK. msolve.
+    + exists []. simpl. rewrite HS. split; [reflexivity|]. split; [intros l []|]. eapply StInv_lift; eauto.
+  - (* SIf *)
+    rewrite checkNode_if in *. rewrite vsS_if in Hvs. rewrite safeS_if.
+    change (mentions (SIf c b1 b2)) with (mentionsL b1 ++ mentionsL b2) in I.
+    change (declsDeepS (SIf c b1 b2)) with (declsDeep b1 ++ declsDeep b2) in *.
+    change (varsDeepS (SIf c b1 b2)) with (varsDeep b1 ++ varsDeep b2).
+    apply andb_true_iff in Hvs. destruct Hvs as [Hv1 Hv2].
+    destruct (frame_block b2 (checkBlock b1 (checkCond c x))) as (F2&_).
+    assert (E1 : errs (checkBlock b1 (checkCond c x)) = []) by (eapply ext_noerr; eauto).
+    destruct (frame_block b1 (checkCond c x)) as (F1&_).
+    assert (E0 : errs (checkCond c x) = []) by (eapply ext_noerr; eauto).
+    destruct (cond_sound L D ((mentionsL b1 ++ mentionsL b2) ++ K) (mentionsL b1 ++ mentionsL b2 ++ Ks) G x c I) as [Hc1 Hc2]; auto.
+    { unfold subK. msolve. }
+    rewrite Hc1 in *. rewrite Hc2.
+    assert (Hd1 : Disj G (declsDeep b1)) by (intros l r Hl Hr Hin; eapply Hdj; eauto; apply in_or_app; auto).
+    assert (Hd2 : Disj G (declsDeep b2)) by (intros l r Hl Hr Hin; eapply Hdj; eauto; apply in_or_app; auto).
+    destruct (sound_block_of b1 H L D (removeAll (declsDeep b1) (mentionsL b2 ++ K)) (removeAll (declsDeep b1) Ks) G x) as [HS1 I1]; auto.
+    + intros r Hr. rewrite mem_removeAll. apply mem_In in Hr. rewrite Hr. simpl. apply andb_false_r.
+    + eapply StInv_anti; [exact I | | auto]. unfold subK. msolve.
+    + unfold subK. msolve.
+    + eapply NoDup_app_l; eauto.
+    + assert (I1' : StInv L (varsDeep b1 ++ D) (mentionsL b2 ++ K) G (checkBlock b1 x)) by (eapply StInv_lift; eauto).
+      destruct (sound_block_of b2 H0 L (varsDeep b1 ++ D) (removeAll (declsDeep b2) K) (removeAll (declsDeep b2) Ks) G (checkBlock b1 x)) as [HS2 I2]; auto.
+      * intros r Hr. rewrite mem_removeAll. apply mem_In in Hr. rewrite Hr. simpl. apply andb_false_r.
+      * eapply StInv_anti; [exact I1' | | auto]. unfold subK. msolve.
+      * unfold subK. msolve.
+      * eapply NoDup_app_r; eauto.
+      * exists []. simpl. rewrite HS1, HS2. split; [reflexivity|]. split; [intros l []|].
+        eapply StInv_anti; [eapply StInv_lift; [exact I2 | exact Hd2] | intros q Hq; exact Hq |]. msolve.
+  - (* SWhile *)
+    rewrite checkNode_while in *. rewrite vsS_while in Hvs. rewrite safeS_while.
+    change (mentions (SWhile c b)) with (mentionsL b) in I.
+    change (declsDeepS (SWhile c b)) with (declsDeep b) in *. change (varsDeepS (SWhile c b)) with (varsDeep b).
+    destruct (frame_block b (checkCond c x)) as (F1&_).
+    assert (E0 : errs (checkCond c x) = []) by (eapply ext_noerr; eauto).
+    destruct (cond_sound L D (mentionsL b ++ K) (mentionsL b ++ Ks) G x c I) as [Hc1 Hc2]; auto.
+    { unfold subK. msolve. }
+    rewrite Hc1 in *. rewrite Hc2.
+    destruct (sound_block_of b H L D (removeAll (declsDeep b) (mentionsL b ++ K)) (removeAll (declsDeep b) (mentionsL b ++ Ks)) G x) as [HS I']; auto.
+    + intros r Hr. rewrite mem_removeAll. apply mem_In in Hr. rewrite Hr. simpl. apply andb_false_r.
+    + eapply StInv_anti; [exact I | | auto]. unfold subK. msolve.
+    + unfold subK. msolve.
+    + exists []. simpl. rewrite HS. split; [reflexivity|]. split; [intros l []|].
+      eapply StInv_anti; [eapply StInv_lift; [exact I' | exact Hdj] | | auto]. unfold subK. msolve.
+  - (* SRetBor *)
+    simpl in I.
+    change (checkNode (SRetBor m pl) x) with
+      (checkReturnBase (fst pl) (releaseTemps (length (temp x)) (checkBorrowExpr m pl x))) in *.
+    assert (T := iT _ _ _ _ _ I). rewrite T in He |- *. simpl length in *.
+    destruct (checkArg_frame (ABor m pl) x) as (A1&A2&A3&A4&A5&A6).
+    change (checkArg x (ABor m pl)) with (checkBorrowExpr m pl x) in *.
+    remember (checkBorrowExpr m pl x) as y eqn:Hy.
+    destruct (releaseTemps_proj 0 y) as (B1&B2&B3&B4&B5&B6).
+    remember (releaseTemps 0 y) as z eqn:Hz.
+    assert (T0 : temps0 x) by (intros e' He'; rewrite T in He'; destruct He').
+    destruct (checkReturnBase_cases (fst pl) z) as [[e Hr]|Hr]; rewrite Hr in *; [exfalso; eapply addErr_noerr; eauto|].
+    assert (Ey : errs y = []) by congruence.
+    assert (C : conflict_borrow Ks G (fst pl) (snd pl) m = false).
+    { destruct (conflict_borrow Ks G (fst pl) (snd pl) m) eqn:C; auto. exfalso.
+      destruct (conflict_borrow_detect K Ks G x (fst pl) (snd pl) m 0) as [_ A]; auto.
+      - exact (iB _ _ _ _ _ I).
+      - rewrite Hy in Ey. unfold checkBorrowExpr in Ey. destruct (addBorrow (fst pl) (snd pl) m 0 x) as [ok s1].
+        simpl in A. destruct ok; simpl in Ey; contradiction. }
+    assert (Lc : mem (fst pl) L = false).
+    { destruct (mem (fst pl) L) eqn:Lc; auto. exfalso. simpl in Hvs. rewrite Lc in Hvs. simpl in Hvs.
+      assert (Hm : mem (fst pl) (locals z) = true) by (rewrite B4, A2; apply (iDl _ _ _ _ _ I); exact Hvs).
+      unfold checkReturnBase in Hr. rewrite Hm in Hr. apply (f_equal errs) in Hr. simpl in Hr. rewrite He in Hr. discriminate. }
+    exists []. simpl. rewrite C, Lc. simpl. split; [reflexivity|]. split; [intros l []|].
+    eapply StInv_transfer with (x := x); [exact I | | | | ].
+    + intros e He' Ht. apply B6; auto.
+    + rewrite B1. exact A4.
+    + rewrite B4. exact A2.
+    + rewrite B3. reflexivity.
+  - (* SRetRef *)
+    simpl in I.
+    change (checkNode (SRetRef r) x) with
+      (match lookup r (bindings x) with Some e => checkReturnBase (e_base e) x | None => x end) in *.
+    assert (Hx : match lookup r (bindings x) with Some e => checkReturnBase (e_base e) x | None => x end = x).
+    { destruct (lookup r (bindings x)) as [e|]; auto.
+      destruct (checkReturnBase_cases (e_base e) x) as [[e' Hr]|Hr]; rewrite Hr in *; auto.
+      exfalso. eapply addErr_noerr; eauto. }
+    exists []. simpl safeS. destruct (lookupLoan r G) as [l|] eqn:El.
+    + assert (Hb : lookup r (bindings x) = Some (entryOf l)).
+      { apply (iBd _ _ _ _ _ I r l El). apply mem_head. }
+      destruct (mem (l_base l) L) eqn:Lc.
+      * exfalso. rewrite Hb in He. simpl in He. destruct (lookupLoan_some _ _ _ El) as [Hin _].
+        assert (Hm : mem (l_base l) (locals x) = true) by (apply (iLs _ _ _ _ _ I); auto).
+        unfold checkReturnBase in He. rewrite Hm in He. eapply addErr_noerr; eauto.
+      * simpl. rewrite Hx. split; [reflexivity|]. split; [intros l' []|].
+        eapply StInv_anti; [exact I | apply subK_tail | auto].
+    + rewrite Hx. split; [reflexivity|]. split; [intros l' []|].
+      eapply StInv_anti; [exact I | apply subK_tail | auto].
+Qed.
+
+(* ------------------------------------------------------------------------------------------------ the theorem *)
+Theorem sound_decl : forall params body,
+  wf body -> vscoped params body -> accept params body = true -> safe params body = true.
+Proof.
+  intros params body Hwf Hvs Hacc. unfold safe, accept, bc in *.
+  destruct (errs (checkBlock body (st0 params))) eqn:He; [|discriminate].
+  assert (I0 : StInv (params ++ varsDeep body) params (mentionsL body ++ []) [] (st0 params)).
+  { constructor; simpl; auto; try (intros; contradiction); try discriminate. }
+  assert (HF : Forall PS body) by (apply Forall_forall; intros s _; apply sound_stmt).
+  assert (HD : Disj [] (declsDeep body)) by (intros l r []).
+  assert (HK : subK [] []) by (intros q Hq; exact Hq).
+  destruct (sound_block_of body HF (params ++ varsDeep body) params [] [] [] (st0 params)) as [HS _]; auto.
+Qed.
+
+(* the scoping hypothesis is necessary: the checker only knows a `let` variable as local after its declaration *)
+Lemma sound_needs_scoping :
+  exists body, wf body /\ accept [] body = true /\ safe [] body = false.
+Proof.
+  exists [SIf None [SRetBor false (0, [])] []; SVar 0]. split; [|split].
+  - unfold wf. simpl. constructor.
+  - vm_compute. reflexivity.
+  - vm_compute. reflexivity.
+Qed.
+
+Lemma nodupb_NoDup : forall l, nodupb l = true -> NoDup l.
+Proof.
+  induction l as [|x l IH]; simpl; intros H; [constructor|].
+  apply andb_true_iff in H. destruct H as [H1 H2]. constructor; auto.
+  apply negb_true_iff in H1. apply mem_false. exact H1.
+Qed.
+Lemma wfb_wf : forall body, wfb body = true -> wf body.
+Proof. intros. apply nodupb_NoDup. exact H. Qed.
+
+(* decidable form of the hypotheses *)
+Corollary sound_decl_b : forall params body,
+  wfb body = true -> vsL (params ++ varsDeep body) params body = true ->
+  accept params body = true -> safe params body = true.
+Proof. intros. apply sound_decl; auto. apply wfb_wf. assumption. Qed.
+
+(* non-vacuity: a nested body (block, if with a condition on a place, while, copy, call with temporaries, inner local,
+   return of the reference parameter) that satisfies every hypothesis and is accepted *)
+Definition demo_body : list stmt :=
+  [SVar 0; SVar 1000;
+   SLet 0 true (0, [SF 2]); SWt 0;
+   SLet 1 false (0, [SF 0]); SCopy 2 1;
+   SIf (Some (0, [SF 1])) [SUse 1; SBlock [SVar 2; SLet 3 true (2, [SF 3; SI (Some 1)]); SWt 3]] [SUse 2];
+   SWhile None [SLet 4 true (0, [SF 3; SI None]); SWt 4; SCall [ABor false (0, [SF 0]); ARd (0, [SF 1]); ARef 4]; SWrite (1000, [])];
+   SWrite (0, []); SRead (0, [SF 2; SF 5]);
+   SIf None [SRetRef 100] []; SRetRef 100].
+Lemma demo_hyps : wf demo_body /\ vscoped [3] demo_body /\ accept [3] demo_body = true.
+Proof. split; [apply wfb_wf; vm_compute; reflexivity | split; vm_compute; reflexivity]. Qed.
